@@ -42,7 +42,7 @@ import (
 
 func init() {
 	c25ChildMode()
-	register(&Prop{ID: "C25", Module: "V.C25.Check", Gen: c25Gen, Quick: 8, Thorough: 20, Shard: 40})
+	register(&Prop{ID: "C25", Module: "V.C25.Check", Gen: c25Gen, Quick: 5, Thorough: 20, Shard: 40})
 }
 
 type c25Job struct {
